@@ -315,3 +315,139 @@ UNITS.append(Unit("C03", "jsonargparse._core:ArgumentParser.parse_known_args", p
 from contracts.adapt_arms import arms_units as _arms_units  # noqa: E402
 from contracts.share import only_clauses  # noqa: E402
 UNITS += [only_clauses(u, "C03") for u in _arms_units("C02")]
+
+
+
+# ------------------------------------------------------------------------------------------------ yaml_load: what leaves the loader
+# PyYAML's constructors fail with ValueError / AttributeError / IndexError / KeyError for scalars that a resolver matched but that do not
+# denote a value (0x_, ._, !!int x, !!timestamp x ...).  Every caller anticipates the loader's own exception class only, so these have to
+# leave yaml_load as that class (they escaped every parse method before; fixed).
+def yl_setup(ctx):
+    outcome = ["loads", "YAMLError", "ValueError", "AttributeError", "IndexError", "KeyError", "UnicodeEncodeError"][ctx.choose(7, "yaml.load")]
+    ctx.classes.add("YAMLError", ["Exception"])
+    ctx.classes.add("UnicodeEncodeError", ["ValueError"])
+    loaded = z3.Int("loaded value")
+
+    def load(c, a, k):
+        c.event("yaml.load", a[0], k.get("Loader"))
+        if outcome != "loads":
+            raise PyRaise(ExcVal(outcome, args=("bad scalar",), origin="yaml.load"))
+        return loaded
+
+    loader = Rec("the default loader class")
+    calls = {"yaml.load": load, "get_yaml_default_loader": lambda c, a, k: loader, "yaml.YAMLError": lambda c, a, k: ExcVal("YAMLError", args=tuple(a), origin="raise-in-yaml_load")}
+    consts = {"yaml": Rec("module yaml", attrs={"YAMLError": ClassRef("YAMLError")})}
+    return Setup(env={"stream": z3.String("stream")}, calls=calls, consts=consts, data=dict(outcome=outcome, loaded=loaded, loader=loader))
+
+
+def yl_post(ctx, st, result):
+    d = st.data
+    ev = [e for e in ctx.events if e[0] == "yaml.load"]
+    ctx.oblige("post", "returns=>PyYAML-loaded-the-text-with-the-library's-loader-class;a-scalar-is-returned-as-loaded", d["outcome"] == "loads" and len(ev) == 1 and ev[0][2] is d["loader"] and result is d["loaded"])
+
+
+def yl_raises(ctx, st, exc):
+    d = st.data
+    ctx.oblige("raises", f"whatever-PyYAML-fails-with(its own error, or a constructor's ValueError/AttributeError/IndexError/KeyError),the-loader's-exception-class-leaves[{d['outcome']}](got {exc.cls})",
+               d["outcome"] != "loads" and exc.cls == "YAMLError")
+
+
+UNITS.append(Unit("C03", "jsonargparse._loaders_dumpers:yaml_load", yl_setup, yl_post, yl_raises, expect_cover=("return", "raise:YAMLError"),
+                  trusted=["yaml.load raises YAMLError or, from its constructors, ValueError (incl. UnicodeEncodeError) / AttributeError / IndexError / KeyError (observed classes: the C03 harness)",
+                           "the `import yaml` inside the function is dropped by the extraction; a mapping result is outside this scenario (scalar loaded)"]))
+
+
+
+# ------------------------------------------------------------------------------------------------ _ActionHelpClassPath.print_help (--*.help=Class)
+# the help of a class is printed by a parser built on the spot; arguments that follow the option are parsed by that parser first.  A failure there
+# is a failure of the parse in progress and leaves through the same channel: the helper parser reports errors the way the parser in use does
+# (it was built with the default exit_on_error=True and exited with status 2 inside a parser that was asked to raise; fixed)
+def ph_setup(ctx):
+    eoe = ctx.choose(2, "exit_on_error-of-the-parser-in-use") == 1
+    rest = ctx.choose(2, "arguments-follow-the-help-option") == 1
+    cls_ok = ctx.choose(2, "class-is-a-subclass-of-the-declared-one") == 1
+    made = []
+    sub = Rec("ArgumentParser(help)", attrs={})
+    sub.methods.update({"add_class_arguments": lambda c, s_, a, k: c.event("add_class_arguments", a[0], a[1], dict(k)), "__setattr__": lambda c, s_, a, k: s_.attrs.__setitem__(a[0], a[1]),
+                        "parse_args": lambda c, s_, a, k: c.event("help.parse_args", a[0]), "print_help": lambda c, s_, a, k: c.event("help.print_help")})
+    pclass = Rec("class ArgumentParser", methods={"__call__": lambda c, s_, a, k: (made.append(dict(k)), sub)[1]})
+    parser = Rec("ArgumentParser", attrs={"exit_on_error": eoe, "args": ["--m.help=Leaf"] + (["--m.req=x"] if rest else [])},
+                 methods={"exit": lambda c, s_, a, k: (_ for _ in ()).throw(PyRaise(ExcVal("SystemExit", args=(0,), origin="parser.exit")))})
+    leaf = Rec("class Leaf")
+    self = Rec("_ActionHelpClassPath", attrs={"_typehint": Rec("hint"), "nargs": None, "_baseclasses": (Rec("class Base"),), "_kind": "subclass of", "_basename": "Base", "dest": "m.help", "sub_add_kwargs": {"fail_untyped": True}},
+               methods={"get_args_after_opt": lambda c, s_, a, k: list(a[0][1:])})
+    calls = {"get_unaliased_type": lambda c, a, k: a[0], "get_optional_arg": lambda c, a, k: a[0], "resolve_class_path_by_name": lambda c, a, k: "pkg.Leaf", "import_object": lambda c, a, k: leaf,
+             "is_subclass": lambda c, a, k: cls_ok, "implements_protocol": lambda c, a, k: False, "re.sub": lambda c, a, k: "m", "type": lambda c, a, k: pclass, "get_import_path": lambda c, a, k: "pkg.Leaf",
+             "ActionTypeHint.is_callable_typehint": lambda c, a, k: False, "remove_actions": lambda c, a, k: c.event("remove_actions", a[0]),
+             "argument_error": lambda c, a, k: ExcVal("ArgumentError", args=(a[0],), origin="argument_error")}
+    consts = {"_HelpAction": ClassRef("_HelpAction"), "_ActionPrintConfig": ClassRef("_ActionPrintConfig"), "_ActionConfigLoad": ClassRef("_ActionConfigLoad")}
+    return Setup(env={"self": self, "call_args": (parser, Rec("namespace"), "Leaf", "--m.help")}, calls=calls, consts=consts,
+                 data=dict(eoe=eoe, rest=rest, cls_ok=cls_ok, made=made, sub=sub, leaf=leaf))
+
+
+def ph_check(ctx, d, exc):
+    tag = f"[exit_on_error={d['eoe']},{'arguments follow' if d['rest'] else 'help option last'}]"
+    if not d["cls_ok"]:
+        ctx.oblige("raises", "a-class-that-is-no-subclass-of-the-declared-one-is-refused-with-TypeError,before-any-parser-is-built" + tag, exc is not None and exc.cls == "TypeError" and not d["made"])
+        return
+    ctx.oblige("post", "the-helper-parser-reports-failures-the-way-the-parser-in-use-does(same exit_on_error)" + tag, len(d["made"]) == 1 and d["made"][0].get("exit_on_error", True) is d["eoe"])
+    ev = [e[0] for e in ctx.events]
+    if d["rest"]:
+        ctx.oblige("post", "arguments-after-the-help-option-are-parsed-by-the-helper-parser;if-they-hold-no-nested-help-option-the-parse-fails(ArgumentError)" + tag,
+                   "help.parse_args" in ev and "help.print_help" not in ev and exc is not None and exc.cls == "ArgumentError")
+    else:
+        ctx.oblige("post", "without-further-arguments-the-help-is-printed-and-the-parser-in-use-exits(status 0)" + tag, ev.count("help.print_help") == 1 and exc is not None and exc.cls == "SystemExit" and exc.args == (0,))
+
+
+def ph_post(ctx, st, result):
+    ctx.oblige("post", "print_help-never-returns-normally", False)
+
+
+def ph_raises(ctx, st, exc):
+    ph_check(ctx, st.data, exc)
+
+
+UNITS.append(Unit("C03", "jsonargparse._actions:_ActionHelpClassPath.print_help", ph_setup, ph_post, ph_raises, expect_cover=("raise:SystemExit", "raise:ArgumentError", "raise:TypeError"),
+                  trusted=["type(parser)(...) builds a parser of the same class with the given settings; add_class_arguments / remove_actions by contract", "resolve_class_path_by_name / import_object: their own units (C14)",
+                           "the local `from ._typehints import` is dropped by the extraction"]))
+
+
+# ------------------------------------------------------------------------------------------------ _parse_defaults_and_environ in fault mode
+# The parse-method units above assume that their callees raise only TypeError / KeyError (which the methods turn into self.error).  get_defaults is the
+# callee that does not: a problem in a default config file is an ArgumentError built on the spot (its own unit), whatever exit_on_error says.  The unit
+# shows that this ArgumentError never leaves _parse_defaults_and_environ as such: it is handed to self.error, so the parser's mode decides the channel
+# (it used to pass straight through all four parse methods: ArgumentError out of a parser created with exit_on_error=True; fixed)
+def pdf_setup(ctx):
+    from contracts.c04 import pde_setup
+    st = pde_setup(ctx)
+    self = st.env["self"]
+    fault = ["none", "ArgumentError", "TypeError", "KeyError"][ctx.choose(4, "get_defaults-raises")] if st.data["defaults"] else "none"
+
+    def get_defaults(c, s_, a, k):
+        c.event("call", "get_defaults", a, dict(k))
+        if fault != "none":
+            raise PyRaise(ExcVal(fault, args=("Problem in default config file",), origin="get_defaults"))
+        return cfg("DEFAULTS")
+
+    self.methods["get_defaults"] = get_defaults
+    st.consts["argparse.ArgumentError"] = ClassRef("ArgumentError")
+    st.data["fault"] = fault
+    return st
+
+
+def pdf_post(ctx, st, result):
+    ctx.oblige("post", "normal-return=>get_defaults-did-not-fail-and-self.error-was-not-called", st.data["fault"] == "none" and not [e for e in ctx.events if e[0] == "error"])
+
+
+def pdf_raises(ctx, st, exc):
+    f = st.data["fault"]
+    ctx.oblige("raises", f"an-ArgumentError-of-get_defaults-is-reported-through-self.error(the parser's mode decides the channel);TypeError/KeyError-go-to-the-caller's-handler[get_defaults raises {f}](got {exc.cls}@{exc.origin})",
+               (f == "ArgumentError" and exc.origin == "self.error") or (f in ("TypeError", "KeyError") and exc.cls == f and exc.origin == "get_defaults"))
+    if f == "ArgumentError":
+        errs = [e for e in ctx.events if e[0] == "error"]
+        ctx.oblige("raises", "self.error-is-called-once-with-the-message-of-the-failure", len(errs) == 1 and len(errs[0][1]) >= 1)
+
+
+UNITS.append(Unit("C03", "jsonargparse._core:ArgumentParser._parse_defaults_and_environ", pdf_setup, pdf_post, pdf_raises, label="fault-mode", expect_cover=("return", "raise:ArgumentError", "raise:SystemExit", "raise:TypeError"),
+                  trusted=["get_defaults raises ArgumentError for a problem in a default config file (its own unit), TypeError / KeyError otherwise", "self.error never returns (unit above)",
+                           "_load_env_vars / merge_config in the fault-free model here (their failures are TypeError / KeyError: the parse-method units)"]))
